@@ -447,10 +447,14 @@ bool exec_str_b(Ctx &c, const Op &op) {
         StrObj *x = pick_str_wf(c, op.a);
         if (!x) { c.skipped = true; return true; }
         const unsigned sink = op.b % 3; const bool wide = sink == 1, file = sink == 2, exc = (op.b >> 2) & 1; const unsigned fmt = (op.b >> 3) % 6;
-        const bool missing = (op.fault & F_CORRUPT) != 0;
+        // data faults: 0 one argument too few; 1 a precision that cuts a character in two (bytes no wide sink can convert: it throws, narrow sinks do
+        // not); 2, 3 both - the call is abandoned for the missing argument *after* it has produced bytes that cannot be converted
+        const unsigned dfk = (op.fault & F_CORRUPT) ? op.fc & 3 : 0;
+        const bool missing = (op.fault & F_CORRUPT) != 0 && dfk != 1, cut = (op.fault & F_CORRUPT) != 0 && dfk != 0;
         static const char *const F[6] = {"{}|{>200}|{}", "{<70_*}{>130}", "{}", "[{>12}] [{<300_-}] {x}", "{}|{}|{&3}{&2}", "{&3}{}{&2}"};
-        const char *f = missing ? "{}|{>20}|{}|{}|{}" : F[fmt];
-        note_sig(c, op, std::string("obj=") + cl(x) + (wide ? ",wide" : file ? ",FILE" : ",narrow") + (exc ? ",exceptions" : "") + ",fmt=" + std::to_string(fmt) + (missing ? ",missing_arg" : ""));
+        static const char *const CUTTEXT = "\xC3\xA9t\xC3\xA9";
+        const char *f = !(op.fault & F_CORRUPT) ? F[fmt] : dfk == 0 ? "{}|{>20}|{}|{}|{}" : dfk == 1 ? "{}|{.1}|{}" : dfk == 2 ? "{}|{.1}|{}|{}" : "{.4}{}{}{}";
+        note_sig(c, op, std::string("obj=") + cl(x) + (wide ? ",wide" : file ? ",FILE" : ",narrow") + (exc ? ",exceptions" : "") + ",fmt=" + std::to_string(fmt) + (missing ? ",missing_arg" : "") + (cut ? ",cut_character" : ""));
         c.budget_bytes = x->model.size() * 16 + 4096;
         as_const(x);
         std::ostringstream os; std::wostringstream ws;
@@ -465,18 +469,34 @@ bool exec_str_b(Ctx &c, const Op &op) {
         TempStr twice(x->model + x->model), thrice(x->model + x->model + x->model + "!");
         ExcKind ex = run_sut(c, op, [&] {
             const S &s = *x->p();
-            if (file) { if (fp) { if (fmt >= 4 || missing) ST::printf(fp, f, s, *twice.p, *thrice.p); else ST::printf(fp, f, s, op.c, s); } }
+            if (cut) { if (file) { if (fp) { if (dfk == 3) ST::printf(fp, f, CUTTEXT, s, *thrice.p); else ST::printf(fp, f, s, CUTTEXT, *thrice.p); } }
+                       else if (wide) { if (dfk == 3) ST::writef(ws, f, CUTTEXT, s, *thrice.p); else ST::writef(ws, f, s, CUTTEXT, *thrice.p); }
+                       else { if (dfk == 3) ST::writef(os, f, CUTTEXT, s, *thrice.p); else ST::writef(os, f, s, CUTTEXT, *thrice.p); } }
+            else if (file) { if (fp) { if (fmt >= 4 || missing) ST::printf(fp, f, s, *twice.p, *thrice.p); else ST::printf(fp, f, s, op.c, s); } }
             else if (fmt >= 4 || missing) { if (wide) ST::writef(ws, f, s, *twice.p, *thrice.p); else ST::writef(os, f, s, *twice.p, *thrice.p); }
             else if (wide) { ST::writef(ws, f, s, op.c, s); ws << s; } else { ST::writef(os, f, s, op.c, s); os << s; }
         });
         // reported through the stream by the standard library (badbit); with exceptions(badbit) libstdc++ rethrows the *original* exception, so even
         // then it is std::bad_alloc that reaches the caller - std::ios_base::failure in its place is somebody else's doing
         // (with both faults at once the swallowed allocation failure shows as badbit and the call goes on to throw for the missing argument)
-        if (c.fired && (ex == EX_NONE || (missing && ex == EX_OUT_OF_RANGE)) && !file && (wide ? ws.bad() : os.bad())) ex = EX_BAD_ALLOC;
+        if (c.fired && (ex == EX_NONE || (missing && ex == EX_OUT_OF_RANGE) || (cut && ex == EX_UNICODE)) && !file && (wide ? ws.bad() : os.bad())) ex = EX_BAD_ALLOC;
         bool state_kept = os.flags() == fl8 && ws.flags() == flw && os.precision() == pr8 && ws.precision() == prw && os.fill() == fi8 && ws.fill() == fiw;
         bool unlocked = true;
         if (fp) { std::thread other([&] { if (ftrylockfile(fp) == 0) funlockfile(fp); else unlocked = false; }); other.join(); if (unlocked) std::fclose(fp); std::free(mbuf); }
-        settle(c, op, ex, missing ? bit(EX_OUT_OF_RANGE) : 0);
+        // the stream is the caller's and its buffer never failed: unless an allocation failed it is as good as before, and the next output arrives
+        bool usable = true;
+        if (!file && !c.fired) {
+            os.exceptions(std::ios_base::goodbit); ws.exceptions(std::ios_base::goodbit);
+            usable = wide ? ws.rdstate() == std::ios_base::goodbit : os.rdstate() == std::ios_base::goodbit;
+            if (usable) {
+                const size_t before = wide ? ws.str().size() : os.str().size(); bool arrived = false;
+                run_quiet([&] { simrt::SutScope sut; try { if (wide) { ST::writef(ws, "<{}>", 42); arrived = ws.str().size() == before + 4 && ws.str().compare(before, 4, L"<42>") == 0; }
+                                                               else { ST::writef(os, "<{}>", 42); arrived = os.str().size() == before + 4 && os.str().compare(before, 4, "<42>") == 0; } } catch (...) { } });
+                usable = arrived;
+            }
+        }
+        settle(c, op, ex, (missing ? bit(EX_OUT_OF_RANGE) : 0) | (cut && wide ? bit(EX_UNICODE) : 0));
+        if (!usable && !c.viol.set) set_viol(c, "state_changed_after_throw", ex == EX_NONE ? "the stream is not good() after a call that succeeded, or does not deliver the next output" : "after the call threw, the caller's stream has an error state it did not have before (its buffer never failed), or does not deliver the next output");
         if (!state_kept) set_viol(c, "state_changed_after_throw", ex == EX_NONE ? "the stream's formatting state (flags / precision / fill) is not what it was before the call" : "after the call threw, the stream's formatting state (flags / precision / fill) is not what it was before");
         else if (!unlocked) set_viol(c, "state_changed_after_throw", "the FILE* is still locked by the calling thread after ST::printf returned or threw");
         return true;
